@@ -31,7 +31,9 @@ pub struct FileCase {
 }
 
 pub fn gen_files(t: &mut Tape, gates: &Gates) -> Vec<FileCase> {
-    let n = 1 + t.below(4);
+    // 1..4 files, now and then 8..21 (a loader that works in batches, chunks or threads has more than
+    // one way to lose the last few)
+    let n = if t.ratio(1, 12) && gates.want("LARGE_FILE_SET") { 8 + t.below(14) } else { 1 + t.below(4) };
     let mut v = vec![];
     for i in 0..n {
         let mut p = Profile::default();
